@@ -140,11 +140,21 @@ void run_mapped(const MPlan &pl) {
         size_t cnt = 0;
         for (auto it = m.begin(); it != m.end() && cnt < n + 5; ++it, ++cnt) seq.push_back(nm((Wide<K>) *it));
         out.begin("Seq").num("id", id).num("size", (long long) m.size()).raw("seq", jarr(seq)).end();
-        std::vector<std::vector<long long>> rows;
-        for (auto q : queries) {
-            long long lb = (long long) (m.lower_bound(q) - m.begin());
-            long long ub = (long long) (m.upper_bound(q) - m.begin());
-            rows.push_back({nm((Wide<K>) q), lb, ub, (long long) m.count(q), m.contains(q) ? 1 : 0});
+        // rows are logged in query order, but asked starting from a container-specific query (an answer may not depend on
+        // which queries came before it, nor on there having been any), and the four operations in a rotating order
+        std::vector<std::vector<long long>> rows(queries.size());
+        for (size_t j = 0; j < queries.size(); ++j) {
+            size_t qi = (j + (size_t) id * 5 + (size_t) (x % 7)) % queries.size();
+            K q = queries[qi];
+            long long lb = -1, ub = -1, ct = -1, co = -1;
+            for (int step = 0; step < 4; ++step)
+                switch ((step + id + (int) qi) % 4) {
+                    case 0: lb = (long long) (m.lower_bound(q) - m.begin()); break;
+                    case 1: ub = (long long) (m.upper_bound(q) - m.begin()); break;
+                    case 2: ct = (long long) m.count(q); break;
+                    default: co = m.contains(q) ? 1 : 0;
+                }
+            rows[qi] = {nm((Wide<K>) q), lb, ub, ct, co};
         }
         out.begin("Probe").num("id", id).raw("rows", jarr2(rows)).end();
     };
